@@ -1,8 +1,8 @@
 package main
 
 import (
-	"regexp"
 	"golang.org/x/tools/go/ssa"
+	"regexp"
 )
 
 func init() { register("C16", checkC16) }
